@@ -111,8 +111,10 @@ def make_check(cmd, table, path):
         with lib("opcode lookup"):
             op = cmd.opcode(table)
         if path == "ctor":
+            # every other case passes the leading optional arguments by position (constructor signature order)
+            positional = bool(sum(v for v in a2.values() if isinstance(v, int)) & 1)
             with lib("constructor"):
-                c = cmd.build(op, a2)
+                c = cmd.build(op, a2, positional=positional)
             cdb = c.cdb
             # building the CDB again on the same object (what the constructor did) gives the same bytes
             with lib("build_cdb again"):
